@@ -293,17 +293,25 @@ fn check(ctx: &Ctx, bin: &Path, profile: &str, c: &Case, idx: usize, strace: boo
     let sentinel = b"SENTINEL - must not change when the build fails\n";
     let _ = std::fs::write(&default_hex, sentinel);
     let _ = std::fs::write(&default_eep, sentinel);
-    let mut args: Vec<String> = vec!["-s".into(), src_arg.clone()];
+    // the options in their short form, their long form, and the long form with `=` (by case number)
+    let spelling = idx % 3;
+    let mut args: Vec<String> = vec![];
+    let mut opt = |short: &str, long: &str, value: Option<String>| match (spelling, value) {
+        (0, Some(v)) => args.extend([short.to_string(), v]),
+        (1, Some(v)) => args.extend([long.to_string(), v]),
+        (_, Some(v)) => args.push(format!("{}={}", long, v)),
+        (0, None) => args.push(short.to_string()),
+        (_, None) => args.push(long.to_string()),
+    };
+    opt("-s", "--source", Some(src_arg.clone()));
     if let Some(p) = &o_path {
-        args.push("-o".into());
-        args.push(p.to_string_lossy().to_string());
+        opt("-o", "--output", Some(p.to_string_lossy().to_string()));
     }
     if let Some(p) = &e_path {
-        args.push("-e".into());
-        args.push(p.to_string_lossy().to_string());
+        opt("-e", "--eeprom", Some(p.to_string_lossy().to_string()));
     }
     if verbose {
-        args.push("-v".into());
+        opt("-v", "--verbosity", None);
     }
     // expected result: the library, in process, on the same file
     let std_inc = home.join("cfg").join("avra-rs").join("includes");
@@ -538,9 +546,12 @@ pub fn replay(ctx: &Ctx, case: &Value) -> i32 {
         let args_match = case["source_kind"].as_str() == Some(c.src.name) && case["stem"].as_str() == Some(c.stem);
         let fault = case["fault"].as_str().unwrap_or("none");
         let on = if case["fault_on"].as_str() == Some("eeprom") { 1 } else { 0 };
-        let has = |flag: &str| case["args"].as_array().map(|a| a.iter().any(|x| x.as_str() == Some(flag))).unwrap_or(false);
-        if args_match && (c.fault == fault || (fault == "none" && c.fault == "none")) && (fault == "none" || c.fault_on == on) && c.opts == (has("-o"), has("-e"), has("-v")) {
-            check(ctx, &bin, "dev", c, 500_000 + i, false);
+        let has = |short: &str, long: &str| case["args"].as_array().map(|a| a.iter().any(|x| x.as_str().map(|t| t == short || t == long || t.starts_with(&format!("{}=", long))).unwrap_or(false))).unwrap_or(false);
+        if args_match && (c.fault == fault || (fault == "none" && c.fault == "none")) && (fault == "none" || c.fault_on == on) && c.opts == (has("-o", "--output"), has("-e", "--eeprom"), has("-v", "--verbosity")) {
+            // (all three option spellings)
+            check(ctx, &bin, "dev", c, 500_001 + 3 * i, false);
+            check(ctx, &bin, "dev", c, 500_002 + 3 * i, false);
+            check(ctx, &bin, "dev", c, 500_000 + 3 * i, false);
             n += 1;
         }
     }
